@@ -279,7 +279,7 @@ func ruleTAB1(w *World) []Ob {
 			var parse, he *ssa.Call
 			allInstrs(gen, func(in ssa.Instruction) {
 				if c, ok := in.(*ssa.Call); ok && c.Common().StaticCallee() != nil {
-					if c.Common().StaticCallee().Name() == "Parse" {
+					if fname(c.Common().StaticCallee()) == "Parse" {
 						parse = c
 					}
 					if c.Common().StaticCallee() == fn {
@@ -322,7 +322,7 @@ func ruleTAB1(w *World) []Ob {
 				under := false
 				for _, g := range guardsOf(r.Block()) {
 					c, pol := flattenCond(g.Cond, g.Pol)
-					if call, ok := c.(*ssa.Call); ok && pol && call.Common().StaticCallee() != nil && call.Common().StaticCallee().Name() == "isBlank" {
+					if call, ok := c.(*ssa.Call); ok && pol && call.Common().StaticCallee() != nil && fname(call.Common().StaticCallee()) == "isBlank" {
 						under = true
 					}
 				}
@@ -470,7 +470,18 @@ func ruleTAB2(w *World) []Ob {
 	for _, f := range pk.Syntax {
 		ast.Inspect(f, func(n ast.Node) bool {
 			fd, ok := n.(*ast.FuncDecl)
-			if !ok || fd.Name.Name != "separateRow" {
+			if !ok || fd.Body == nil {
+				return true
+			}
+			// by role: the function(s) of the parser package that loop over the bullet table
+			mentions := false
+			ast.Inspect(fd.Body, func(m ast.Node) bool {
+				if id, ok := m.(*ast.Ident); ok && id.Name == "listSymbols" {
+					mentions = true
+				}
+				return true
+			})
+			if !mentions {
 				return true
 			}
 			found := false
@@ -510,7 +521,7 @@ func ruleTAB2(w *World) []Ob {
 		ok := false
 		allInstrs(fn, func(in ssa.Instruction) {
 			c, isC := in.(*ssa.Call)
-			if !isC || c.Common().StaticCallee() == nil || c.Common().StaticCallee().Name() != "IsSymbol" {
+			if !isC || c.Common().StaticCallee() == nil || fname(c.Common().StaticCallee()) != "IsSymbol" {
 				return
 			}
 			if sl, isS := c.Common().Args[0].(*ssa.Slice); isS {
@@ -580,7 +591,7 @@ func ruleTAB3(w *World) []Ob {
 			}
 			name := calleeFullName(call.Common())
 			switch {
-			case call.Common().StaticCallee() != nil && call.Common().StaticCallee().Name() == "hasChild" && sameVar(call.Common().Args[0], node):
+			case call.Common().StaticCallee() != nil && fname(call.Common().StaticCallee()) == "hasChild" && sameVar(call.Common().Args[0], node):
 				gs = append(gs, fmt.Sprintf("hasChild=%v", pol))
 			case name == "strings.HasSuffix":
 				_, f, okF := fieldOfLoad(call.Common().Args[0])
@@ -656,7 +667,7 @@ func ruleTAB3(w *World) []Ob {
 				return
 			}
 		case *ssa.Call:
-			if x.Common().StaticCallee() != nil && x.Common().StaticCallee().Name() == "hasChild" && sameVar(x.Common().Args[0], node) {
+			if x.Common().StaticCallee() != nil && fname(x.Common().StaticCallee()) == "hasChild" && sameVar(x.Common().Args[0], node) {
 				// the value hasChild(node): true under hasChild=true, false under hasChild=false
 				gl := label(guards)
 				judge(!neg, append(append([]string{}, gl...), "hasChild=true"))
@@ -1157,7 +1168,7 @@ func ruleTAB6(w *World) []Ob {
 			if pp.Cfg.Name == "W" && !wOnlyFunc(w, fn) {
 				continue
 			}
-			if !strings.HasPrefix(fn.Name(), "newGrow") {
+			if !strings.HasPrefix(fname(fn), "newGrow") {
 				continue
 			}
 			allInstrs(fn, func(in ssa.Instruction) {
@@ -1204,7 +1215,7 @@ func ruleTAB6(w *World) []Ob {
 		okFmt, okFlag := false, false
 		allInstrs(fn, func(in ssa.Instruction) {
 			c, isC := in.(*ssa.Call)
-			if !isC || c.Common().StaticCallee() == nil || c.Common().StaticCallee().Name() != "newGrowerSimple" {
+			if !isC || c.Common().StaticCallee() == nil || fname(c.Common().StaticCallee()) != "newGrowerSimple" {
 				return
 			}
 			if len(c.Common().Args) == 3 && sameVar(c.Common().Args[0], fn.Params[0]) && sameVar(c.Common().Args[1], fn.Params[1]) {
@@ -1237,7 +1248,7 @@ func tab6Encoders(w *World, l *obs) {
 	optConst := map[string]int64{}
 	for _, f := range []string{"JSON", "YAML", "TOML"} {
 		for _, fn := range p.ModFuncs {
-			if fn.Parent() == nil || fn.Parent().Name() != "WithEncode"+f {
+			if fn.Parent() == nil || fname(fn.Parent()) != "WithEncode"+f {
 				continue
 			}
 			allInstrs(fn, func(in ssa.Instruction) {
@@ -1316,7 +1327,7 @@ func encoderPackageOf(p *Prog, ctor *ssa.Function) string {
 	visit = func(f *ssa.Function) {
 		allInstrs(f, func(in ssa.Instruction) {
 			if c, ok := in.(ssa.CallInstruction); ok {
-				if callee := c.Common().StaticCallee(); callee != nil && callee.Name() == "NewEncoder" && !p.InModule(callee) {
+				if callee := c.Common().StaticCallee(); callee != nil && fname(callee) == "NewEncoder" && !p.InModule(callee) {
 					pkg = pkgOfFunc(callee).Pkg.Path()
 				}
 			}
@@ -1455,7 +1466,7 @@ func ruleTAB7(w *World) []Ob {
 					numc := numbered{}
 					for _, ci := range p.Callers(fn) {
 						args := callArgs(ci.Common())
-						cc := numc.name("exit code passed to " + fn.Name())
+						cc := numc.name("exit code passed to " + fname(fn))
 						if idx < len(args) {
 							if kk, okc := constInt(stripConv(args[idx])); okc && kk != 0 {
 								l.ok(p.FuncID(ci.Parent()), cc, p.InstrPos(ci), fmt.Sprintf("non-zero constant (%d) handed to the helper that calls cli.Exit", kk), false, "code")
@@ -1529,7 +1540,7 @@ func ruleTAB7(w *World) []Ob {
 			}
 			allInstrs(fn, func(in ssa.Instruction) {
 				c, ok := in.(*ssa.Call)
-				if !ok || c.Common().StaticCallee() == nil || c.Common().StaticCallee().Name() != wr.option || p.PkgPath(c.Common().StaticCallee()) != modulePath {
+				if !ok || c.Common().StaticCallee() == nil || fname(c.Common().StaticCallee()) != wr.option || p.PkgPath(c.Common().StaticCallee()) != modulePath {
 					return
 				}
 				construct := "--" + wr.flag + " → " + wr.option
@@ -1599,7 +1610,7 @@ func ruleTAB7(w *World) []Ob {
 			}
 			what := "nil"
 			if c, ok := stripConv(rr(r)[0]).(*ssa.Call); ok && c.Common().StaticCallee() != nil {
-				what = c.Common().StaticCallee().Name()
+				what = fname(c.Common().StaticCallee())
 			}
 			matched := false
 			for _, g := range guardsOf(r.Block()) {
@@ -1674,7 +1685,7 @@ func reachesLibraryCall(p *Prog, v ssa.Value, depth int) bool {
 				return true
 			}
 		case *ssa.Call:
-			if f := x.Common().StaticCallee(); f != nil && p.PkgPath(f) == modulePath && f.Object() != nil && f.Object().Exported() && f.Signature.Recv() == nil && !strings.HasPrefix(f.Name(), "With") {
+			if f := x.Common().StaticCallee(); f != nil && p.PkgPath(f) == modulePath && f.Object() != nil && f.Object().Exported() && f.Signature.Recv() == nil && !strings.HasPrefix(fname(f), "With") {
 				return true
 			}
 			if isBuiltinCall(x, "append") {
@@ -1741,7 +1752,7 @@ func existsSuffixOverExtensions(c *ssa.Call, node ssa.Value) bool {
 	if callee == nil || callee.Pkg == nil && callee.Origin() == nil {
 		return false
 	}
-	name := callee.Name()
+	name := fname(callee)
 	if o := callee.Origin(); o != nil {
 		name = o.Name()
 		callee = o
